@@ -29,6 +29,7 @@ LEVEL_TEXT = ("Exploration over (configuration, program, input): the same AST is
               "environment; values, parts (modulo the keys-selector prefix) and paths (modulo the root spelling) must agree; the "
               "custom environment's str(compiled) must recompile there to an equivalent query. A covering set puts every "
               "identifier on every pool spelling and every ordered identifier pair on every prefix-related spelling pair.")
+LEVEL_TEXT += " Between compile() and str() in the custom environment the default and a third environment compile the same query in their own spellings (an environment's string form must not depend on what others have compiled)."
 BUDGET_S = {"quick": 70, "thorough": 500}
 RULE = ("Spellings from ASCII punctuation the fixed grammar does not use and that cannot be part of a name ($ @ # ~ ^ | & % ; { } "
         "and 2-3 character combinations; never || or &&; `_` only in its default role). Queries: extension ASTs with names always "
